@@ -66,7 +66,9 @@ def quantize_fraction_spec(ctx: Ctx):
     from pyvc.builtins_model import rv
     qv = rv(quant)
     ratio = f.t / qv
-    is_mult = z3.ToReal(z3.ToInt(ratio)) == ratio
+    # "self is an exact multiple of quant", in the vocabulary of the spec
+    # functions numer/denom (n/d == ratio, d > 0)
+    is_mult = S.numer(ratio) % S.denom(ratio) == 0
     valid = z3.And(mode >= 0, mode < 8)
 
     def res(c):
@@ -75,18 +77,26 @@ def quantize_fraction_spec(ctx: Ctx):
         return VRat(c.fresh("qf", z3.RealSort()), t)
 
     def value(c, o):
-        k = z3.Int("qf!k")
+        # the multiple selected by the rounding function
         return rat_result(o, lambda v, tag: z3.And(
-            exact_tag(tag),
-            z3.Exists([k], z3.And(v == z3.ToReal(k) * qv,
-                                  S.round_rel(ratio, mode, k)))))
+            exact_tag(tag), v == z3.ToReal(S.rnd(ratio, mode)) * qv))
+
+    def unchanged(c, o):
+        # an exact multiple is returned as it is, whatever `rounding` is
+        return rat_result(o, lambda v, tag: z3.And(exact_tag(tag), v == f.t))
     cases = [
         Case("zero-quantum", qv == 0, raises="ZeroDivisionError"),
-        Case("value", z3.And(qv != 0, z3.Or(valid, is_mult)),
+        Case("value", z3.And(qv != 0, valid),
              ensures=[("value", value)], result=res),
+        Case("invalid-mode-exact-multiple",
+             z3.And(qv != 0, z3.Not(valid), is_mult),
+             ensures=[("unchanged", unchanged)], result=res),
         Case("invalid-mode", z3.And(qv != 0, z3.Not(valid), z3.Not(is_mult)),
              raises="ValueError"),
     ]
+    ctx.axiom(S.rnd_fact(ratio, mode))
+    ctx.axiom(S.num_den_fact(ratio), "A3: numer/denom are spec functions "
+                                     "with numer(x)/denom(x) == x, denom(x) > 0")
     return [], cases
 
 
